@@ -178,4 +178,39 @@ def entry_point_love(chk, repo):
                     bad.append(f'love_number_by_orderl[{l}] is not 3/(2(l-1)) / (1 + m_l / (J mu))')
             chk.ob('R12.7', f'quick_tidal_dissipation (spin-synchronous, l_max = {lmax}{", array inputs" if arrays else ""}): the reported love_number_by_orderl is the closed form at the one compliance the modes share',
                    not bad, '; '.join(bad), mq.where(f), key=f'R12.7|lmax={lmax}|arrays={arrays}', method='whole-function interpretation (compliance stubbed) + GF(p^2) PIT')
-    chk.floor('R12.7', 5)
+    # the dual-body entry point reports the same quantity once per world: each must be the closed form with THAT world's density, gravity, radius, rigidity and compliance
+    fd = mq.defs.get('quick_dual_body_tidal_dissipation')
+    if isinstance(fd, _ast.FunctionDef):
+        def call_hook2(itp, fn_, args, kwargs, e, fr):
+            if isinstance(fn_, FuncRef) and fn_.node.name == 'compliance_dict_helper':
+                freqs = args[0] if args else kwargs.get('tidal_frequencies')
+                ci = args[2] if len(args) > 2 else kwargs.get('complex_compliance_input_0', kwargs.get('input_tuple'))
+                eta_ = ci[1] if isinstance(ci, (tuple, list)) and len(ci) > 1 else None
+                eta_ = getattr(eta_, 'v', eta_)
+                nm_ = eta_.val[0] if isinstance(eta_, X.Node) and eta_.op == 'atom' else 'unknown'
+                return {sig: X.atom('J_of_' + nm_, 'complex') for sig in freqs}
+            return NotImplemented
+        W = [dict(R=X.atom(f'R{i}', 'pos'), m=X.atom(f'M{i}', 'pos'), g=X.atom(f'g{i}', 'pos'), rho=X.atom(f'rho{i}', 'pos'), C=X.atom(f'C{i}', 'pos'), eta=X.atom(f'eta{i}', 'pos'),
+                  mu=X.atom(f'mu{i}', 'pos')) for i in (0, 1)]
+        d2 = X.Decider(seed=chk.seed + 6, k=2, positive=[W[0]['m'] + W[1]['m']])
+        for arrays in (False, True):
+            it = Interp(repo, hooks={'call': call_hook2, 'branch': branch_hook}, max_depth=14)
+            it.array_mode = arrays
+            for lmax in (2, 3):
+                out = it.call(mq, fd, [], dict(radii=(W[0]['R'], W[1]['R']), masses=(W[0]['m'], W[1]['m']), gravities=(W[0]['g'], W[1]['g']), densities=(W[0]['rho'], W[1]['rho']),
+                                               mois=(W[0]['C'], W[1]['C']), viscosities=(W[0]['eta'], W[1]['eta']), shear_moduli=(W[0]['mu'], W[1]['mu']), rheologies=('Maxwell', 'Maxwell'),
+                                               eccentricity=X.atom('e', 'pos'), orbital_frequency=X.atom('n', 'pos'), max_tidal_order_l=lmax, eccentricity_truncation_lvl=4))
+                bad = []
+                for i, wname in enumerate(('host', 'secondary')):
+                    love = out.get(wname, {}).get('love_number_by_orderl') if isinstance(out, dict) and isinstance(out.get(wname), dict) else None
+                    w = W[i]; Jw = X.atom(f'J_of_eta{i}', 'complex')
+                    for l in range(2, lmax + 1):
+                        got = love.get(l) if isinstance(love, dict) else None
+                        got = getattr(got, 'v', got) if type(got).__name__ == 'ArrBox' else got
+                        m_l = X.const(Fr(2 * l * l + 4 * l + 3, l)) * w['mu'] / (w['rho'] * w['g'] * w['R'])
+                        ref = X.const(Fr(3, 2 * (l - 1))) / (1 + m_l / (Jw * w['mu']))
+                        if not isinstance(got, X.Node) or not d2.equal(got, ref):
+                            bad.append(f"['{wname}']['love_number_by_orderl'][{l}] is not the closed form with that world's own rho, g, R, mu, J" + (': ' + d2.describe(got, ref) if isinstance(got, X.Node) else ''))
+                chk.ob('R12.7', f'quick_dual_body_tidal_dissipation (both worlds spin-synchronous, l_max = {lmax}{", array inputs" if arrays else ""}): each world reports the closed form with its own density, gravity, radius, rigidity and compliance',
+                       not bad, '; '.join(bad[:2]), mq.where(fd), key=f'R12.7|dual|lmax={lmax}|arrays={arrays}', method='whole-function interpretation (compliance stubbed per world) + GF(p^2) PIT')
+    chk.floor('R12.7', 9)
